@@ -787,6 +787,24 @@ func evalUpdateExpression(node *UpdateExpression, env *Environment) Object {
 		return newError(node.TokenLiteral() + " expression must have at least one action")
 	}
 
+	// every right-hand side reads the item as it was before the update: evaluate them all
+	// before any action is applied
+	env.assignedValues = map[*ActionExpression]Object{}
+
+	for _, act := range node.Expressions {
+		action, ok := act.(*ActionExpression)
+		if !ok || action.Token.Type != SET || action.Right == nil {
+			continue
+		}
+
+		val := EvalUpdate(action.Right, env)
+		if isError(val) {
+			return val
+		}
+
+		env.assignedValues[action] = copyObject(val)
+	}
+
 	for _, act := range node.Expressions {
 		action, ok := act.(*ActionExpression)
 		if !ok {
@@ -805,7 +823,11 @@ func evalUpdateExpression(node *UpdateExpression, env *Environment) Object {
 }
 
 func evalActionSet(node *ActionExpression, env *Environment) Object {
-	val := EvalUpdate(node.Right, env)
+	val, evaluated := env.assignedValues[node]
+	if !evaluated {
+		val = EvalUpdate(node.Right, env)
+	}
+
 	if isError(val) {
 		return val
 	}
